@@ -19,7 +19,7 @@ def run(ctx):
     prove(ctx)
     model = build_model_driver(ctx, 'seqtable', 'ExtractSeqTable.v', 'seqtable_driver.ml')
     exe = os.path.join(BUILD, 'lfht_seq')
-    rc, so, se = sh(['gcc', '-O1', '-g', '-w', '-I' + REPO + '/include', '-I' + REPO + '/src', os.path.join(HARN, 'seqdiff/lfht_seq.c')] + SRCS + ['-o', exe, '-lpthread'])
+    rc, so, se = sh(['gcc', '-O1', '-g', '-w', '-include', REPO + '/include/config.h', '-I' + REPO + '/include', '-I' + REPO + '/src', os.path.join(HARN, 'seqdiff/lfht_seq.c')] + SRCS + ['-o', exe, '-lpthread'])
     if rc: ctx.fail('harness', 'build of seqdiff/lfht_seq.c', se[-800:]); return finish(ctx, trusted=TRUSTED)
     confs = []
     for mm in 'ocmd':
